@@ -1,12 +1,19 @@
-"""Property id -> rules."""
-from .rules import optab
+"""Property id -> rules, and the texts that go to MANIFEST / evidence."""
+from .rules import optab, sign, role
 
 PROPS = dict()
+NOT_BUILT = dict()
+
+GENERIC = (
+    'Exhaustive static check of named necessary conditions of the '
+    'property over all sites and paths of the current source (nothing is '
+    'executed): ')
 
 
-def prop(pid, rules, explanation, not_decided='', cython=False):
-    PROPS[pid] = dict(rules=rules, explanation=explanation,
-                      not_decided=not_decided, cython=cython)
+def prop(pid, rules, decides, not_decided, technique, cython=False):
+    PROPS[pid] = dict(
+        rules=rules, explanation=GENERIC + decides,
+        not_decided=not_decided, technique=technique, cython=cython)
 
 
 prop('C01', [
@@ -15,17 +22,159 @@ prop('C01', [
     optab.r_optab_bdd,
     optab.r_ite_terminals,
     optab.r_optab_functions({'dd.autoref'}),
-], 'x')
+    sign.r_sign,
+    role.r_role,
+],
+    'every operator alias of dd._abc is interpreted through BDD.apply over '
+    'the Boolean domain and compared with its connective (27 aliases, 8 '
+    'valuations each); the arity partition of assert_operator_arity; the '
+    'Function operators ~ & | implies equiv <= < == != interpreted the '
+    'same way; terminal cases of _ite; sign push-down in _top_cofactor; '
+    'cofactor roles and homogeneity of the _ite recursion; key of the '
+    'computed table read == written; every function that removes or '
+    'rewrites nodes resets the computed table; normal form steps of '
+    'find_or_add.',
+    'that the ITE recursion as a whole computes the right function for '
+    'all operands (inductive argument), warm-cache histories beyond the '
+    'invalidation rule.',
+    'abstract interpretation of dispatch tables over Booleans; '
+    'path-sensitive sign/role dataflow')
+prop('C02', [
+    sign.r_sign,
+    role.r_role,
+],
+    'normal form steps of find_or_add on every path (validation, '
+    'complement normalisation, elimination, unique-table lookup, insert '
+    'of the looked-up key); writer set of the node tables; _succ/_pred '
+    'written in inverse pairs; level argument of every find_or_add call '
+    'classified (same node / variable node / min level / mapped with '
+    'order-preserving map); sign and roles in reduction.',
+    'the "iff" itself (global induction over the node table), '
+    'all-orders enumeration.',
+    'must-pass-through on find_or_add paths; who-may-write; inverse-map '
+    'pairing; level-argument classification')
+prop('C03', [
+    optab.r_optab_bdd,
+    optab.r_quant_wrappers({'dd.bdd', 'dd.autoref'}),
+    sign.r_sign,
+    role.r_role,
+    role.r_conn,
+],
+    'complement push-down in _quantify on every path; LOW/HIGH roles into '
+    'find_or_add; ite(p, q, -1) under forall / ite(p, 1, q) otherwise are '
+    'exactly AND / OR; memo key is the signed reference; the \\A / \\E '
+    'branches of apply quantify the second operand over the support of '
+    'the first with the right kind; forall/exist wrappers pass the right '
+    'constant and operand roles.',
+    'correctness of the early exit for every level pattern; the '
+    'recursion as a whole.',
+    'path-sensitive sign/role dataflow; truth tables of ite encodings')
+prop('C04', [
+    sign.r_sign,
+    role.r_role,
+],
+    'sign accounting in _cofactor, _compose, _vector_compose, _copy_bdd '
+    '(hit and miss paths); a true value selects the HIGH successor in '
+    '_cofactor; ite(g, HIGH, LOW) and find_or_add(z, LOW, HIGH); '
+    'recursive calls are role-homogeneous; let dispatch tests bool before '
+    'int; memo keys cover the varying parameters.',
+    'simultaneous-substitution semantics as a whole; arithmetic on '
+    'levels.',
+    'path-sensitive sign/role dataflow; dispatch-order check')
+prop('C05', [
+    sign.r_sign,
+    role.r_role,
+],
+    'printer _to_expr: sign and roles (ite(var, HIGH, LOW), FALSE/TRUE '
+    'shortcut).',
+    'the LALR automaton PLY builds from the productions.',
+    'token/precedence table agreement; path-sensitive dataflow on the '
+    'printer')
+prop('C07', [
+    role.r_role,
+],
+    'swap: old children released and new children acquired for every '
+    'rewritten node, candidates handed to the rooted collection, '
+    '_succ/_pred rewritten in inverse pairs on all paths of the three '
+    'loops, vars/_level_to_var swapped as an inverse pair, computed table '
+    'reset, arguments validated before the first write; node identity '
+    'kept; helpers keep (level, LOW, HIGH).',
+    'the case analysis of swap (which grandchildren go where), monotone '
+    'size under sifting, that _sort_to_order reaches the target.',
+    'typestate / pairing analysis on the swap loops')
+prop('C10', [
+    sign.r_sign,
+    role.r_role,
+],
+    'sign accounting in _sat_len (hit and miss) and _sat_iter; False '
+    'travels with LOW and True with HIGH in the enumeration.',
+    'all arithmetic (2** scaling, level compaction), disjointness and '
+    'coverage of the enumeration.',
+    'path-sensitive sign/role dataflow')
+prop('C11', [
+    sign.r_sign,
+    role.r_role,
+],
+    'sign and roles in dd.bdd._copy_bdd and dd._copy._copy_bdd; rebuild '
+    'through ite on the target variable.',
+    'behaviour when the target lacks a variable.',
+    'path-sensitive sign/role/domain dataflow')
+prop('C12', [
+    sign.r_sign,
+    role.r_role,
+],
+    'sign and roles across pickle/JSON writers and readers.',
+    'file-system behaviour, shelve.',
+    'writer/reader table agreement; path-sensitive dataflow')
+prop('C13', [
+    sign.r_sign,
+    role.r_role,
+    role.r_conn,
+],
+    'cofactor roles and homogeneity in _image; ite(g, HIGH, LOW); AND/OR '
+    'encodings under forall.',
+    'the level-shift arithmetic jv + z - iv.',
+    'path-sensitive role dataflow; truth tables of ite encodings')
 prop('C15', [
     optab.r_optab_mdd,
     optab.r_apply_validates([('dd.mdd', 'MDD')]),
     optab.r_ite_terminals,
-], 'x')
+    sign.r_sign,
+],
+    'MDD.apply interpreted per alias against the connectives and against '
+    'BDD.apply; terminal cases of MDD.ite; sign in MDD._top_cofactor and '
+    'in the edge map of bdd_to_mdd.',
+    'bit significance, zone selection, reorder to zones.',
+    'abstract interpretation of dispatch tables; sign dataflow')
+prop('C16', [
+    sign.r_sign,
+    role.r_role,
+],
+    'sign of complemented else-edges; THEN/ELSE of the file format reach '
+    'find_or_add as HIGH/LOW; only the THEN edge is required regular.',
+    'header mode semantics.',
+    'format-table role dataflow; identifier-domain taint')
+prop('C18', [
+    sign.r_sign,
+    role.r_role,
+],
+    'low/high accessors return the successor of their name; succ() keeps '
+    '(level, LOW, HIGH); to_nx labels value=False on LOW and carries the '
+    'complement bit; _to_dot draws LOW dashed, HIGH solid and marks '
+    'complemented edges; negated is the sign test.',
+    'graph isomorphism of exports.',
+    'path-sensitive sign/role dataflow on accessors and exporters')
 prop('C19', [
     optab.r_optab_backends,
     optab.r_optab_functions({'dd.cudd', 'dd.cudd_zdd', 'dd.sylvan',
                              'dd.buddy'}),
     optab.r_quant_wrappers({'dd.cudd', 'dd.cudd_zdd', 'dd.sylvan'}),
-], 'x', cython=True)
-
-NOT_BUILT = dict()
+],
+    'the apply chain of each C wrapper (parsed with the Cython parser) is '
+    'interpreted per alias over Booleans and compared with the '
+    'interpretation of dd.bdd.BDD.apply (truth tables; operand roles of '
+    'quantifiers using parameter names from c_sylvan.pxd); Function '
+    'operator methods likewise.',
+    'anything about the C libraries behind the wrappers.',
+    'abstract interpretation of Cython dispatch tables; reference '
+    'typestate on DdNode locals', cython=True)
